@@ -65,6 +65,19 @@ func randomOp(r *gen.Rng, w, h int) string {
 			return fmt.Sprint(gen.Pick(r, []int{65535, 70000, 2147483647, 9999}))
 		}
 	}
+	// round 2: one-parameter functions with further parameters (only the first is read)
+	extra := func(p string) string {
+		if !r.Chance(1, 5) {
+			return p
+		}
+		if p == "" {
+			p = "0"
+		}
+		for n := r.Range(1, 3); n > 0; n-- {
+			p += ";" + fmt.Sprint(gen.Pick(r, []int{0, 1, 2, 7, 65535}))
+		}
+		return p
+	}
 	switch k := r.Intn(100); {
 	case k < 38:
 		return emuh.Pr(gen.Pick(r, []string{"a", "b", "c", "x", "y", "z", " ", "é", "世", "界", "🔥", "a", "b"}))
@@ -79,19 +92,19 @@ func randomOp(r *gen.Rng, w, h int) string {
 	case k < 64:
 		return emuh.Csi(gen.Pick(r, []string{"H", "f"}), gen.Pick(r, []string{"", par(h), par(h) + ";" + par(w), ";" + par(w)}))
 	case k < 68:
-		return emuh.Csi(gen.Pick(r, []string{"G", "`"}), par(w))
+		return emuh.Csi(gen.Pick(r, []string{"G", "`"}), extra(par(w)))
 	case k < 70:
-		return emuh.Csi("d", par(h))
+		return emuh.Csi("d", extra(par(h)))
 	case k < 76:
-		return emuh.Csi(gen.Pick(r, []string{"A", "B", "E", "F"}), par(h))
+		return emuh.Csi(gen.Pick(r, []string{"A", "B", "E", "F"}), extra(par(h)))
 	case k < 80:
-		return emuh.Csi(gen.Pick(r, []string{"C", "D"}), par(w))
+		return emuh.Csi(gen.Pick(r, []string{"C", "D"}), extra(par(w)))
 	case k < 84:
-		return emuh.Csi(gen.Pick(r, []string{"K", "J"}), gen.Pick(r, []string{"", "0", "1", "2"}))
+		return emuh.Csi(gen.Pick(r, []string{"K", "J"}), extra(gen.Pick(r, []string{"", "0", "1", "2"})))
 	case k < 89:
-		return emuh.Csi(gen.Pick(r, []string{"X", "@", "P"}), par(w))
+		return emuh.Csi(gen.Pick(r, []string{"X", "@", "P"}), extra(par(w)))
 	case k < 94:
-		return emuh.Csi(gen.Pick(r, []string{"L", "M", "S", "T"}), par(h))
+		return emuh.Csi(gen.Pick(r, []string{"L", "M", "S", "T"}), extra(par(h)))
 	case k < 96:
 		return emuh.Csi("r", gen.Pick(r, []string{"", par(h) + ";" + par(h), fmt.Sprintf("%d;%d", r.Range(1, h), r.Range(1, h+2)), par(h)}))
 	default:
